@@ -23,7 +23,7 @@ def _contains(k, target, memo):
 
 def _checkers():
     from .. import filtercheck as fc
-    from ..symtime import K, mk, _key, Tok
+    from ..symtime import K, mk, _key, Tok, T
 
     class Transparent(fc.Checker):
         """no measurement falls inside [start, end): the loop must be plain integration"""
@@ -110,6 +110,15 @@ def _checkers():
                     if not (isinstance(arg, K) and arg[0] == 'correct_pva' and arg[1] is e[3] and arg[2] is want_x):
                         add('feedback_set_pva', 'the state written back is not correct_pva(latest state, x[ins block]) with the x of this epoch')
                 elif e[0] == 'prop':
+                    # the averaged readings handed to the propagation are "sum of the batch / LENGTH OF
+                    # THE BATCH": whatever divides them must equal the propagation interval on this path
+                    td_ = e[1]
+                    for nm_, raw_ in (('gyro', e[5] if len(e) > 5 else None), ('accel', e[6] if len(e) > 6 else None)):
+                        if isinstance(raw_, Tok) and raw_.op == 'div' and isinstance(raw_.args[1], T) and isinstance(td_, T):
+                            out['nobl'] += 1
+                            d_ = raw_.args[1]
+                            if d_ is not td_ and ex.feasible(d_.v != td_.v):
+                                add('feedback_average_divisor', 'the averaged %s readings are divided by a quantity that can differ from the propagation interval of the step' % nm_, d_.v != td_.v)
                     a4 = (e[2], e[3], e[4], _key(e[1]))
                     Phi, Qd = mk('Phi', *a4), mk('Qd', *a4)
                     if P is None:
